@@ -3,6 +3,7 @@ package router
 import (
 	"sync"
 
+	"github.com/smart-core-os/sc-golang/internal/verifhook"
 	"google.golang.org/grpc/codes"
 	"google.golang.org/grpc/status"
 )
@@ -101,11 +102,13 @@ func (r *router) Get(name string) (child any, err error) {
 	child, exists := r.registry[name]
 	r.mu.RUnlock()
 	if !exists {
+		verifhook.Yield("router.get.miss")
 		child, exists, err = invoke(name, r.fallback)
 	}
 	if !exists {
 		child, exists, err = invoke(name, r.factory)
 		if exists {
+			verifhook.Yield("router.get.insert")
 			r.mu.Lock()
 			// check again
 			var newChildRemembered bool
